@@ -172,6 +172,27 @@ func reentryMain(args []string) {
 					b.RegisterNode("after-all", mk(eventlogger.NodeTypeFilter))
 					b.SetSuccessThreshold("inner", 1)
 				})
+				// overwriting a pipeline so that it no longer lists a gated filter with pending groups, then
+				// removing that filter: whatever closes it, and whenever, the calls return
+				{
+					ob, _ := eventlogger.NewBroker()
+					og := &gated.Filter{Broker: ob, Expiration: time.Hour}
+					ob.RegisterNode("og", og)
+					ob.RegisterNode("ofmt", mk(eventlogger.NodeTypeFormatter))
+					ob.RegisterNode("osink", mk(eventlogger.NodeTypeSink))
+					ob.RegisterPipeline(eventlogger.Pipeline{PipelineID: "op", EventType: "outer", NodeIDs: []eventlogger.NodeID{"og", "ofmt", "osink"}})
+					for i := 0; i < pending && ok; i++ {
+						ok = watchdog("Send(gateable) before an overwrite", oracle, func() {
+							ob.Send(ctx, "outer", &gated.Payload{ID: fmt.Sprintf("o%d", i), Detail: map[string]interface{}{"i": i}})
+						})
+					}
+					ok = ok && watchdog(fmt.Sprintf("RegisterPipeline overwriting a pipeline so that it drops a gated.Filter with %d pending groups", pending), oracle, func() {
+						ob.RegisterPipeline(eventlogger.Pipeline{PipelineID: "op", EventType: "outer", NodeIDs: []eventlogger.NodeID{"ofmt", "osink"}})
+					})
+					ok = ok && watchdog("Send after the overwrite", oracle, func() { ob.Send(ctx, "outer", "plain") })
+					ok = ok && watchdog("RemoveNode of the dropped gated.Filter", oracle, func() { ob.RemoveNode(ctx, "og") })
+					ok = ok && watchdog("SetSuccessThreshold after the overwrite", oracle, func() { ob.SetSuccessThreshold("outer", 0) })
+				}
 				// a stock sink whose write(2) fails (its file is a symbolic link to /dev/full): the retry path of
 				// FileSink.Process runs with the sink's own lock held; Send, a second Send and Reopen all return
 				if _, serr := os.Stat("/dev/full"); serr == nil && *out != "" {
